@@ -220,6 +220,35 @@ def optimize (ops : Array (Op K)) (privRows : List Nat) : Array (Op K) × Rewrit
 
 end
 
+/-- Witness slots that carry the constant zero. -/
+def zeroConsts {K : Type} [Zero K] [DecidableEq K] (ops : List (Op K)) : List Nat :=
+  ops.filterMap fun
+    | .const out v => if v = 0 then some out else none
+    | _ => none
+
+/-- `CircuitBuilder::validate_horner_chains`: the ALU table takes a HornerAcc step's accumulator
+from the previous ALU row (zero at the start of a run of HornerAcc ops), so a step's `acc` must be
+the directly preceding HornerAcc step's output, or a zero constant's slot at the start of a run.
+`prev` is the output of the preceding ALU op when that op is a HornerAcc step. -/
+def hornerChainedFrom {K : Type} (zs : List Nat) : List (Op K) → Option Nat → Bool
+  | [], _ => true
+  | .alu .horner _ _ _ out (some acc) :: ops, prev =>
+    (match prev with
+     | some p => acc == p
+     | none => zs.contains acc) && hornerChainedFrom zs ops (some out)
+  | .alu .horner _ _ _ _ none :: _, _ => false
+  | .alu .add _ _ _ _ _ :: ops, _ => hornerChainedFrom zs ops none
+  | .alu .mul _ _ _ _ _ :: ops, _ => hornerChainedFrom zs ops none
+  | .alu .boolCheck _ _ _ _ _ :: ops, _ => hornerChainedFrom zs ops none
+  | .alu .mulAdd _ _ _ _ _ :: ops, _ => hornerChainedFrom zs ops none
+  | .const _ _ :: ops, prev => hornerChainedFrom zs ops prev
+  | .pub _ _ :: ops, prev => hornerChainedFrom zs ops prev
+  | .hint _ _ _ :: ops, prev => hornerChainedFrom zs ops prev
+  | .npo _ _ _ _ :: ops, prev => hornerChainedFrom zs ops prev
+
+def hornerChained {K : Type} [Zero K] [DecidableEq K] (ops : List (Op K)) : Bool :=
+  hornerChainedFrom (zeroConsts ops) ops none
+
 /-- The compiled circuit (`Circuit` fields that the models use). -/
 structure Circuit (K : Type) where
   witnessCount : Nat
@@ -230,11 +259,13 @@ structure Circuit (K : Type) where
   rewrite : Rewrite
 
 /-- `CircuitBuilder::build_with_public_mapping` (stages 1–3). -/
-def compile {K : Type} [Neg K] (b : BState K) : Except LowerErr (Circuit K) :=
+def compile {K : Type} [Neg K] [Zero K] [DecidableEq K] (b : BState K) : Except LowerErr (Circuit K) :=
   match lower b with
   | .error e => .error e
   | .ok l =>
     let (ops, rw) := optimize l.ops l.privRows.toList
+    -- `validate_horner_chains` (fix 93b51a3): HornerAcc steps must be chained
+    if !hornerChained ops.toList then .error .hornerNotChained else
     .ok { witnessCount := l.witnessCount, ops := ops,
           pubRows := l.pubRows.map (resolve rw), privRows := l.privRows.map (resolve rw),
           e2w := l.e2w.map (·.map (resolve rw)), rewrite := rw }
